@@ -346,6 +346,10 @@ def gen_c04(seed, tier):
             if r.chance(0.2):
                 # a second bearer confirmation with a window of its own (every one that is present counts)
                 d["second_sc"] = {"nooa": r.pick([-86400, -3600, -3600, life, 2 * life])}
+            if r.chance(0.25):
+                # the bearer confirmation names the address it was issued to, and the application tells the
+                # library which address the response came from (the same one)
+                d["scd_address"] = "10.0.0.5"
             p["dialect"] = d
             offs = {"cond_nooa": d["cond_nooa"], "cond_nb": d["cond_nb"], "scd_nooa": d["scd_nooa"],
                     "scd_nb": d["scd_nb"], "session": d["session_nooa"]}
@@ -380,7 +384,12 @@ def gen_c04(seed, tier):
                 jump = J
         if jump is not None:
             g.ev("jump", node=sp["name"], delta=jump)
-        g.ev("resp", f=f, r=0, sub=g.sub())
+        ckw = {}
+        if d and d.get("scd_address"):
+            ckw["conv"] = {"remote_addr": d["scd_address"]}
+        elif r.chance(0.1):
+            ckw["conv"] = {"remote_addr": "10.0.0.7"}
+        g.ev("resp", f=f, r=0, sub=g.sub(), **ckw)
         if jump is not None:
             g.ev("jump", node=sp["name"], delta=-jump)
         g.tick(2)
@@ -710,7 +719,7 @@ def gen_c05(seed, tier):
             g.tick()
             continue
         mode = "plain" if clean else r.pick(["plain", "dup", "replay-late", "misdeliver", "other-endpoint",
-                                              "restart", "reorder", "unsol", "drop"])
+                                              "restart", "reorder", "unsol", "drop", "ecp-between"])
         if mode == "unsol":
             f = g.new_flow()
             g.ev("unsol", f=f, idp=idp["name"], sp=sp["name"], p=p, sub=g.sub(),
@@ -724,6 +733,14 @@ def gen_c05(seed, tier):
             g.ev("resp", f=f, r=0, conv=conv, sub=g.sub())
         elif mode == "dup":
             g.ev("resp", f=f, r=0, conv=conv, sub=g.sub())
+            g.tick(0.5)
+            g.ev("resp", f=f, r=0, conv=conv, dup=True, sub=g.sub())
+        elif mode == "ecp-between":
+            # the same long-lived client also serves ECP: between the delivery and its replay an ECP / PAOS answer is
+            # handed to parse_ecp_authn_response() (and refused or not) - the replay is judged as if nothing had happened
+            g.ev("resp", f=f, r=0, conv=conv, sub=g.sub())
+            g.tick(0.5)
+            g.ev("ecp", f=f, r=0)
             g.tick(0.5)
             g.ev("resp", f=f, r=0, conv=conv, dup=True, sub=g.sub())
         elif mode == "replay-late":
@@ -919,6 +936,8 @@ def gen_c17(seed, tier):
             p["enc_cert"] = r.pick([sp["enc_keys"][0], sp["enc_keys"][0], 10, 11])
             if idp.get("enc_in_config") and r.chance(0.6):
                 p["encrypt"] = None
+                if r.chance(0.3):
+                    p["enc_arg"] = "none"
             g.login(sp, idp, p)
             continue
         if not hooked and r.chance(0.12):
